@@ -25,6 +25,11 @@ def enc(v):
         return [enc(x) for x in v]
     if isinstance(v, dict):
         return {"d": [[enc(k), enc(x)] for k, x in v.items()]}
+    import fractions, decimal
+    if isinstance(v, fractions.Fraction):
+        return {"q": "%d/%d" % (v.numerator, v.denominator)}
+    if isinstance(v, decimal.Decimal):
+        return {"dc": str(v)}
     return {"o": type(v).__name__}
 
 
@@ -41,6 +46,12 @@ def dec(j):
         return tuple(dec(x) for x in j["t"])
     if "d" in j:
         return {dec(k): dec(x) for k, x in j["d"]}
+    if "q" in j:
+        import fractions
+        return fractions.Fraction(j["q"])
+    if "dc" in j:
+        import decimal
+        return decimal.Decimal(j["dc"])
     if "o" in j:
         return ("<object>", j["o"])
     raise ValueError(j)
